@@ -117,6 +117,26 @@ static ssize_t x_sendto(int fd, const void* buf, size_t n, int flags, const stru
     x_sayhex("P", buf, n);
     return (ssize_t)n;
 }
+static int x_maxpk = 0, x_npk = 0;
+static ssize_t x_sendto_n(int fd, const void* buf, size_t n, int flags, const struct sockaddr* a, socklen_t al)
+{
+    (void)fd; (void)flags; (void)a; (void)al;
+    x_sayhex("P", buf, n);
+    if (++x_npk >= x_maxpk && x_end_armed) longjmp(x_end, 1);
+    return (ssize_t)n;
+}
+static ssize_t x_read_stdin(int fd, void* buf, size_t n)
+{
+    if (fd == 0) {                               /* STDIN of the stream talkers: the audio / video source */
+        if (x_cur >= x_nd) return 0;
+        size_t l = x_len[x_cur] < n ? x_len[x_cur] : n;
+        memcpy(buf, x_dg[x_cur], l); x_sayhex("I", buf, l); x_cur++;
+        return (ssize_t)l;
+    }
+    return read(fd, buf, n);
+}
+static unsigned x_sleep(unsigned s) { (void)s; return 0; }
+static int x_clock_nanosleep(clockid_t c, int f, const struct timespec* r, struct timespec* rem) { (void)c; (void)f; (void)r; (void)rem; return 0; }
 static int x_clock_gettime(clockid_t c, struct timespec* ts) { (void)c; ts->tv_sec = 1700000000; ts->tv_nsec = 123456789; return 0; }
 static int x_close(int fd) { (void)fd; return 0; }
 
@@ -140,6 +160,27 @@ static int x_handle(int* m) { use_udp = (uint8_t)m[0]; can_variant = m[1] ? AVTP
 #undef read
 #undef sendto
 #undef clock_gettime
+#elif defined(XH_AAF_TALKER) || defined(XH_CRF_TALKER) || defined(XH_HELLO_TALKER) || defined(XH_VSS_TALKER)
+#define read x_read_stdin
+#define sendto x_sendto_n
+#define sleep x_sleep
+#define clock_nanosleep x_clock_nanosleep
+#if defined(XH_AAF_TALKER)
+#include "aaf/aaf-talker.c"
+#elif defined(XH_CRF_TALKER)
+#include "crf/crf-talker.c"
+#elif defined(XH_HELLO_TALKER)
+#include "hello-world/hello-world-talker.c"
+#define XH_CF_TALKER 1
+#else
+#include "acf-vss/acf-vss-talker.c"
+#define XH_CF_TALKER 1
+#endif
+#undef read
+#undef sendto
+#undef sleep
+#undef clock_nanosleep
+#define XH_STREAM_TALKER 1
 #elif defined(XH_CVF_LISTENER)
 #include "cvf/cvf-listener.c"
 #define XH_LISTENER 1
@@ -215,6 +256,15 @@ static void child(char** tok, int nt)
     char* argv0[] = { "prog", NULL };
     int r = example_main(1, argv0);                        /* leaves through its own error path when recv fails */
     x_say("M %d %d\n", x_cur, r);
+#elif defined(XH_STREAM_TALKER)
+    (void)nt;
+#if defined(XH_CF_TALKER)
+    use_tscf = (uint8_t)m[0]; use_udp = (uint8_t)m[1];
+#endif
+    x_maxpk = atoi(tok[4]);
+    char* argv0[] = { "prog", NULL };
+    if (setjmp(x_end) == 0) { x_end_armed = 1; example_main(1, argv0); }
+    x_say("M %d 0\n", x_npk);
 #elif defined(XH_CAN_TALKER)
     use_tscf = (uint8_t)m[0]; use_udp = (uint8_t)m[1]; can_variant = m[2] ? AVTP_CAN_FD : AVTP_CAN_CLASSIC;
     num_acf_msgs = (uint8_t)atoi(tok[4]);
@@ -262,6 +312,7 @@ int main(void)
         for (char* ln = strtok(rep, "\n"); ln; ln = strtok(NULL, "\n")) {
             if (ln[0] == 'D') { int i, r; sscanf(ln + 2, "%d %d", &i, &r); done = i + 1; rl += (size_t)snprintf(rets + rl, sizeof rets - rl, "%s%d", rl ? "," : "", r); outs[ol++] = '|'; }
             else if (ln[0] == 'M') { int i, r; sscanf(ln + 2, "%d %d", &i, &r); done = i; rl += (size_t)snprintf(rets + rl, sizeof rets - rl, "%s%d", rl ? "," : "", r); }
+            else if (ln[0] == 'I') { size_t l = strlen(ln + 2); if (ol && outs[ol - 1] != '|' ) outs[ol++] = ','; outs[ol++] = 'i'; memcpy(outs + ol, ln + 2, l); ol += l; }
             else if (ln[0] == 'W' || ln[0] == 'P') { size_t l = strlen(ln + 2); if (ol && outs[ol - 1] != '|' ) outs[ol++] = ','; memcpy(outs + ol, ln + 2, l); ol += l; }
         }
         outs[ol] = 0;
